@@ -862,3 +862,31 @@ def gen_guards(quick_n, thorough_n):
         for i in range(quick_n if tier == "quick" else thorough_n):
             yield guard_case(universe, rnd, rnd.randrange(3, 14), rnd.randrange(4, 30))
     return gen
+
+
+def gen_mix(gens):
+    def gen(tier, seed, universe):
+        for i, g in enumerate(gens):
+            yield from g(tier, seed + 1000 * i, universe)
+    return gen
+
+
+GUARD_RULE = ("engine guards: a world is built by 3..14 operations and frozen; then 4..30 guard operations over both "
+              "worlds: query() guards (created, acquired by iteration, narrowed with with()/without(), dropped in any "
+              "order), view(), PreparedQuery::query(), get::<&T>/get::<&mut T> (Ref/RefMut, clone), query_one (get, "
+              "with/without), Archetype::get column borrows (shared/unique, clone), and statically invalid queries "
+              "through query_mut/view_mut/query_one(_mut)/prepared query_mut; 162 query types; after every operation the "
+              "borrow state of every column of both worlds is read back with trial borrows (free / shared / unique) and "
+              "compared with the model; a ghost reader/writer oracle judges soundness, exactness of conflicts and "
+              "release on drop. Non-trivial = observation longer than 150 numbers")
+CONT_RULE = (WORLD_RULE + ". Container operations interleaved with the world history: 4 EntityBuilder slots (add with "
+             "replacement over all 8 layouts, clear, build+spawn, build+insert, build+drop, drop, has/get/"
+             "component_types probes), 4 EntityBuilderClone + 4 BuiltEntityClone slots (add, clear, clone, build, "
+             "spawn(&built) repeatedly, From back into a builder, clone of built), 4 ColumnBatchBuilder slots (declared "
+             "types incl. duplicates, pushes through successive writers within/beyond the room and for absent types, "
+             "build+spawn complete or incomplete, drop), 2 CommandBuffers (spawn/insert/remove/despawn recorded with "
+             "static or builder bundles incl. repeated types, run_on either world, clear, drop, reuse); every value "
+             "carries a serial, clones get fresh serials, every drop is logged and compared per operation; teardown "
+             "order of containers vs worlds varies")
+CONT_ASSUME = ["panics raised by user code (Clone/Drop impls of components) and the unwinding they cause are not modelled",
+               "allocator events of the arenas are not compared in this engine (see C04)"]
